@@ -215,6 +215,9 @@ class StateMachine:
         :param kwds: items to put as attributes on the state machine
         """
         kwds.setdefault('cleanup', None)  # cleanup must be given on each restart
+        for key in kwds:  # complain now and not in the middle of a cycle
+            if hasattr(type(self), key):
+                raise AttributeError(f'can not set {type(self).__name__}.{key}')
         with self._lock:
             self.next_task = Start(statefunc, kwds)
 
